@@ -835,7 +835,7 @@ Section Pairing.
       by (unfold new_slot in Ens; inversion Ens; reflexivity).
     assert (Efr : s_lmtp st1 = s_lmtp st /\ s_rcpttos st1 = s_rcpttos st /\ s_exts st1 = s_exts st)
       by (unfold new_slot in Ens; inversion Ens; repeat split; reflexivity).
-    destruct Efr as (Ef1 & Ef2 & Ef3).
+    destruct Efr as (Ef1 & Ef2 & Ef3). subst id.
     apply (cl_buffered_send_inv w) in I1.
     set (st2 := buffered_send w st1) in *.
     assert (Eo2 : s_objs st2 = s_objs st1) by reflexivity.
@@ -895,5 +895,260 @@ Section Pairing.
       destruct Hp as [Hp1 Hp2]. split; [congruence|]. left. split; [reflexivity|].
       rewrite <- Hrc1. exact Hp2.
     - exists f'. split; [exact I1|]. split; [exact Hl1|]. split; [exact Hlm|]. right. auto.
+  Qed.
+
+  (* LMTP: which recipients get an end-of-data reply *)
+  Definition accepted (rs : list (list N * nat)) : list (list N * nat) :=
+    filter (fun p => class2 (fst (scr (snd p)))) rs.
+
+  Lemma cl_number_fst : forall l n, map fst (number n l) = l.
+  Proof. induction l; intros; cbn; [reflexivity|]. f_equal. apply IHl. Qed.
+  Lemma cl_number_snd : forall l n, map snd (number n l) = seq n (length l).
+  Proof. induction l; intros; cbn; [reflexivity|]. f_equal. apply IHl. Qed.
+
+  (* the recipient loop of LmtpClient.send_data: it either pairs the accepted recipients
+     with new slots, or dies (AttributeError) on a recipient whose RCPT reply was a
+     BadReply - leaving the slots queued so far *)
+  Lemma cl_lmtp_slots_gen : forall rs st acc f,
+    Inv st f ->
+    Forall (fun p => snd p < f /\ o_kind (obj_at st (snd p)) = KPlain) rs ->
+    exists st1 o,
+      lmtp_slots rs st acc = (st1, o) /\
+      Inv st1 f /\ length (s_objs st) <= length (s_objs st1) /\
+      s_lmtp st1 = s_lmtp st /\ s_exts st1 = s_exts st /\ s_rcpttos st1 = s_rcpttos st /\
+      ((o = Some (acc ++ number (length (s_objs st)) (map fst (accepted rs)))%list /\
+        length (s_objs st1) = length (s_objs st) + length (accepted rs) /\
+        Forall (fun p => good (snd p) = true) rs) \/
+       (o = None /\ has_bad)).
+  Proof.
+    induction rs as [|[a rid] rs IH]; intros st acc f I Hrs.
+    - exists st, (Some acc). cbn. rewrite app_nil_r, Nat.add_0_r. split; [reflexivity|].
+      split; [exact I|]. repeat (split; [first [reflexivity | lia]|]). left. auto.
+    - inversion Hrs as [|? ? [Hrid Hkind] Hrs']; subst. cbn [snd] in *.
+      cbn [lmtp_slots]. change (get_obj st rid) with (obj_at st rid).
+      pose proof (I_filled _ _ I rid Hrid) as Hr. rewrite Hkind in Hr.
+      assert (Hrl : rid < length script) by (pose proof (I_fscript _ _ I); lia).
+      destruct (good rid) eqn:Eg.
+      + rewrite Hr. cbn [filled]. unfold raw_filled.
+        rewrite cl_set_message_code. cbn [r_code].
+        destruct (scr rid) as [c ls] eqn:Escr.
+        assert (Hwf1 : wf_reply (c, ls) = true) by (rewrite <- Escr; exact Eg).
+        destruct (cl_wf_reply_inv c ls Hwf1) as (_ & (d1 & d2 & d3 & -> & _) & _).
+        cbn [fst]. unfold accepted. cbn [filter snd]. rewrite Escr. cbn [fst class2].
+        destruct (d1 =? 50)%N.
+        * assert (Hkp : KPlain <> KHello) by discriminate.
+          pose proof (cl_new_slot_inv SEND_DATA KPlain st f Hkp I) as I1.
+          destruct (new_slot SEND_DATA KPlain st) as [st1 id] eqn:Ens. cbn [fst] in I1.
+          assert (Eid : id = length (s_objs st)) by (unfold new_slot in Ens; inversion Ens; reflexivity).
+          assert (Eo : s_objs st1 = (s_objs st ++ [mkObj SEND_DATA KPlain (unfilled KPlain)])%list)
+            by (unfold new_slot in Ens; inversion Ens; reflexivity).
+          assert (Efr : s_lmtp st1 = s_lmtp st /\ s_rcpttos st1 = s_rcpttos st /\ s_exts st1 = s_exts st)
+            by (unfold new_slot in Ens; inversion Ens; repeat split; reflexivity).
+          destruct Efr as (Ef1 & Ef2 & Ef3).
+          assert (El : length (s_objs st1) = S (length (s_objs st))).
+          { rewrite Eo, app_length. cbn. lia. }
+          destruct (IH st1 (acc ++ [(a, id)])%list f I1) as (st2 & o & Hsl & I2 & Hl2 & Hlm & Hex & Hrc & Hout).
+          { eapply Forall_impl; [|exact Hrs']. intros p [H1 H2].
+            rewrite (cl_obj_at_app_l st1 st _ (snd p) Eo); [auto|].
+            pose proof (I_fle _ _ I). lia. }
+          exists st2, o. rewrite Hsl. split; [reflexivity|]. split; [exact I2|]. split; [lia|].
+          rewrite Hlm, Hex, Hrc. repeat (split; [assumption|]).
+          destruct Hout as [(-> & Hl3 & Hall)|(-> & Hb)]; [left|right; auto].
+          subst id. rewrite El. cbn [map fst number length]. rewrite <- app_assoc. cbn [app].
+          split; [reflexivity|]. split; [rewrite Hl3, El; fold (accepted rs); lia|].
+          constructor; [exact Eg|exact Hall].
+        * destruct (IH st acc f I Hrs') as (st2 & o & Hsl & I2 & Hl2 & Hlm & Hex & Hrc & Hout).
+          exists st2, o. split; [exact Hsl|]. split; [exact I2|]. repeat (split; [assumption|]).
+          destruct Hout as [(-> & Hl3 & Hall)|(-> & Hb)]; [left|right; auto].
+          fold (accepted rs). repeat split; try assumption. constructor; [exact Eg|exact Hall].
+      + rewrite Hr. cbn [unfilled r_code]. exists st, None. split; [reflexivity|]. split; [exact I|].
+        repeat (split; [first [reflexivity | lia]|]). right. split; [reflexivity|].
+        apply (cl_bad_has_bad rid); assumption.
+  Qed.
+
+  Lemma cl_lmtp_data_gen : forall w st f st' res,
+    Inv st f ->
+    lmtp_data udigit uspace w st = (st', res) ->
+    length (s_objs st') <= length script ->
+    exists f', Inv st' f' /\ length (s_objs st) <= length (s_objs st') /\ s_lmtp st' = s_lmtp st /\
+      ((res = RPairs (number (length (s_objs st)) (map fst (accepted (s_rcpttos st)))) /\
+        length (s_objs st') = length (s_objs st) + length (accepted (s_rcpttos st)) /\
+        s_rcpttos st' = []%list /\ Forall (fun p => good (snd p) = true) (s_rcpttos st)) \/
+       (res = RExn XBadReply /\ has_bad /\ (s_rcpttos st' = s_rcpttos st \/ s_rcpttos st' = []%list)) \/
+       (res = RExn XAttr /\ has_bad /\ s_rcpttos st' = s_rcpttos st)).
+  Proof.
+    intros w st f st' res I H Hlen.
+    pose proof (cl_lmtp_data_len w st) as Hmono. rewrite H in Hmono. cbn [fst] in Hmono.
+    unfold lmtp_data in H.
+    destruct (cl_flush_inv st f I) as (st0 & e0 & f0 & Hfl & I0 & Hff0 & Hl0 & Hlm0 & Hex0 & Hrc0 & Hkc0 & Hout0); [lia|].
+    rewrite Hfl in H.
+    destruct Hout0 as [(-> & -> & Hall0)|(-> & Hlt0 & Hb0)].
+    2:{ inversion H; subst st' res. exists f0. split; [exact I0|]. split; [lia|]. split; [exact Hlm0|].
+        right. left. split; [reflexivity|]. split; [|left; exact Hrc0].
+        apply (cl_bad_has_bad (f0 - 1)); [pose proof (I_fscript _ _ I0); lia|exact Hb0]. }
+    assert (Hrs : Forall (fun p => snd p < length (s_objs st) /\ o_kind (obj_at st0 (snd p)) = KPlain)
+                         (s_rcpttos st0)).
+    { pose proof (I_rcpt _ _ I0) as Ir. rewrite Hl0 in Ir.
+      eapply Forall_impl; [|exact Ir]. intros p (H1 & H2 & _). auto. }
+    destruct (cl_lmtp_slots_gen (s_rcpttos st0) st0 []%list _ I0 Hrs)
+      as (st1 & o & Hsl & I1 & Hl1 & Hlm1 & Hex1 & Hrc1 & Hout1).
+    rewrite Hsl in H. rewrite Hl0, Hrc0 in *.
+    destruct Hout1 as [(-> & Hl1' & Hall1)|(-> & Hb1)].
+    2:{ inversion H; subst st' res. exists (length (s_objs st)). split; [exact I1|]. split; [lia|].
+        split; [congruence|]. right. right. auto. }
+    cbn [app] in H.
+    set (ret := number (length (s_objs st)) (map fst (accepted (s_rcpttos st)))) in *.
+    apply cl_inv_clear_rcpttos in I1. apply (cl_buffered_send_inv w) in I1.
+    set (st2 := buffered_send w (set_rcpttos st1 []%list)) in *.
+    assert (E2 : length (s_objs st2) = length (s_objs st1) /\ s_lmtp st2 = s_lmtp st1 /\
+                 s_rcpttos st2 = []%list) by (repeat split; reflexivity).
+    destruct E2 as (El2 & Elm2 & Erc2).
+    destruct (pipelining st2).
+    - inversion H; subst st' res. exists (length (s_objs st)).
+      split; [exact I1|]. split; [lia|]. split; [congruence|]. left. rewrite El2, Hl1'. auto.
+    - pose proof (cl_flush_len st2) as Hfl2.
+      destruct (cl_flush_inv st2 _ I1) as (st3 & e3 & f3 & Hfl3 & I3 & Hff3 & Hl3 & Hlm3 & Hex3 & Hrc3 & _ & Hout3).
+      + destruct (flush udigit uspace st2) as [stx [ex|]]; inversion H; subst; cbn [fst] in Hfl2; lia.
+      + rewrite Hfl3 in H.
+        destruct Hout3 as [(-> & -> & _)|(-> & Hlt3 & Hb3)]; inversion H; subst st' res.
+        * eexists. split; [exact I3|]. split; [lia|]. split; [congruence|]. left.
+          rewrite Hl3, Hrc3, El2, Hl1'. auto.
+        * exists f3. split; [exact I3|]. split; [lia|]. split; [congruence|]. right. left.
+          split; [reflexivity|]. split; [|right; congruence].
+          apply (cl_bad_has_bad (f3 - 1)); [pose proof (I_fscript _ _ I3); lia|exact Hb3].
+  Qed.
+
+  (* what a call may return *)
+  Definition res_gen (n n' : nat) (res : result) : Prop :=
+    match res with
+    | RObj id => id = n /\ n' = S n
+    | RPairs l => map snd l = seq n (length l) /\ n' = n + length l
+    | RExn XEncode => n' = n
+    | RExn XNotImpl => n' = n
+    | RExn XBadReply => n <= n' /\ has_bad
+    | RExn XAttr => n <= n' /\ has_bad
+    | RExn _ => False
+    end.
+
+  Lemma cl_inv_add_rcpt : forall st f a id,
+    Inv st f -> id < length (s_objs st) ->
+    o_kind (obj_at st id) = KPlain -> o_cmd (obj_at st id) = RCPT ->
+    Inv (set_rcpttos st (s_rcpttos st ++ [(a, id)])%list) f.
+  Proof.
+    intros st f a id [Id Iq Ifl Ifs Is Ic Ifi Iun Ir] H1 H2 H3.
+    constructor; try assumption.
+    cbn [s_rcpttos set_rcpttos]. apply Forall_app. split; [exact Ir|]. constructor; [|constructor].
+    cbn [snd]. auto.
+  Qed.
+
+  (* how a call changes LmtpClient.rcpttos; a call that raises before the wire is a no-op *)
+  Definition rc_step (o : op) (st st' : cstate) (res : result) : Prop :=
+    (s_rcpttos st' = s_rcpttos st \/ s_rcpttos st' = []%list \/
+     exists a, o = ORcpt a /\ res = RObj (length (s_objs st)) /\
+               s_rcpttos st' = (s_rcpttos st ++ [(a, length (s_objs st))])%list) /\
+    (res = RExn XEncode \/ res = RExn XNotImpl -> st' = st).
+
+  Lemma cl_step_gen : forall o st f st' res,
+    Inv st f ->
+    step udigit uspace o st = (st', res) ->
+    length (s_objs st') <= length script ->
+    exists f', Inv st' f' /\
+               res_gen (length (s_objs st)) (length (s_objs st')) res /\
+               s_lmtp st' = s_lmtp st /\ rc_step o st st' res.
+  Proof.
+    intros o st f st' res I H Hlen. unfold step in H. rewrite (I_dead _ _ I) in H.
+    assert (CM : forall cmd k w fl st1 r1,
+               k <> KHello ->
+               command_method udigit uspace cmd k w fl st = (st1, r1) ->
+               length (s_objs st1) <= length script ->
+               exists f', Inv st1 f' /\ res_gen (length (s_objs st)) (length (s_objs st1)) r1 /\
+                          s_lmtp st1 = s_lmtp st /\ s_rcpttos st1 = s_rcpttos st /\
+                          length (s_objs st1) = S (length (s_objs st)) /\
+                          (r1 = RObj (length (s_objs st)) \/ r1 = RExn XBadReply) /\
+                          o_kind (obj_at st1 (length (s_objs st))) = k /\
+                          o_cmd (obj_at st1 (length (s_objs st))) = cmd).
+    { intros cmd k w fl st1 r1 Hk Hcm Hl.
+      destruct (cl_command_method_inv _ _ _ _ _ _ _ _ I Hk Hcm Hl)
+        as (f' & I1 & _ & Hl1 & Hlm & Hrc & _ & Hk1 & Hc1 & Hout).
+      exists f'. split; [exact I1|].
+      destruct Hout as [(-> & _ & _)|(_ & -> & Hb)]; cbn [res_gen]; rewrite Hl1; auto 12. }
+    assert (EXN : forall e, (e = XEncode \/ e = XNotImpl) -> (st, RExn e) = (st', res) ->
+               exists f', Inv st' f' /\ res_gen (length (s_objs st)) (length (s_objs st')) res /\
+                          s_lmtp st' = s_lmtp st /\ rc_step o st st' res).
+    { intros e He Heq. inversion Heq; subst. exists f. split; [exact I|]. unfold rc_step.
+      destruct He; subst; cbn; auto 6. }
+    assert (HELLO : forall verb a,
+               hello_method udigit uspace verb a st = (st', res) ->
+               exists f', Inv st' f' /\ res_gen (length (s_objs st)) (length (s_objs st')) res /\
+                          s_lmtp st' = s_lmtp st /\ rc_step o st st' res).
+    { intros verb a Hh.
+      destruct (cl_hello_method_inv _ _ _ _ _ _ I Hh Hlen) as [[-> ->]|(f' & I1 & Hl1 & Hlm & Hout)].
+      - exists f. unfold rc_step. cbn. auto 6.
+      - exists f'. split; [exact I1|]. unfold rc_step. rewrite Hl1.
+        destruct Hout as [(-> & Hrc)|(-> & Hb & Hrc)]; cbn [res_gen].
+        + split; [auto|]. split; [exact Hlm|]. split; [destruct Hrc; auto|]. intros [X|X]; discriminate.
+        + split; [split; [lia|exact Hb]|]. split; [exact Hlm|]. split; [auto|]. intros [X|X]; discriminate. }
+    assert (CM' : forall cmd k w fl, k <> KHello ->
+               command_method udigit uspace cmd k w fl st = (st', res) ->
+               exists f', Inv st' f' /\ res_gen (length (s_objs st)) (length (s_objs st')) res /\
+                          s_lmtp st' = s_lmtp st /\ rc_step o st st' res).
+    { intros cmd k w fl Hk Hcm. destruct (CM _ _ _ _ _ _ Hk Hcm Hlen) as (f' & ? & ? & ? & ? & ? & Hr & _).
+      exists f'. split; [assumption|]. split; [assumption|]. split; [assumption|].
+      unfold rc_step. split; [left; assumption|]. intros [X|X]; destruct Hr; congruence. }
+    assert (LD : forall w, lmtp_data udigit uspace w st = (st', res) ->
+               exists f', Inv st' f' /\ res_gen (length (s_objs st)) (length (s_objs st')) res /\
+                          s_lmtp st' = s_lmtp st /\ rc_step o st st' res).
+    { intros w Hd. destruct (cl_lmtp_data_gen _ _ _ _ _ I Hd Hlen) as (f' & I1 & Hmono & Hlm & Hout).
+      exists f'. split; [exact I1|]. unfold rc_step.
+      destruct Hout as [(-> & Hl1 & Hrc & _)|[(-> & Hb & Hrc)|(-> & Hb & Hrc)]]; cbn [res_gen].
+      - rewrite cl_number_snd, Hl1.
+        assert (HL : length (number (length (s_objs st)) (map fst (accepted (s_rcpttos st)))) =
+                length (accepted (s_rcpttos st))).
+        { rewrite <- (map_length fst (number _ _)), cl_number_fst, map_length. reflexivity. }
+        rewrite HL, map_length. split; [auto|]. split; [exact Hlm|]. split; [auto|]. intros [X|X]; discriminate.
+      - split; [auto|]. split; [exact Hlm|]. split; [destruct Hrc; auto|]. intros [X|X]; discriminate.
+      - split; [auto|]. split; [exact Hlm|]. split; [auto|]. intros [X|X]; discriminate. }
+    assert (Hkp : KPlain <> KHello) by discriminate.
+    destruct o.
+    - eapply CM'; [|exact H]. discriminate.
+    - eapply CM'; [|exact H]. discriminate.
+    - destruct (s_lmtp st); [apply (EXN XNotImpl); auto|]. eapply HELLO; exact H.
+    - destruct (s_lmtp st); [apply (EXN XNotImpl); auto|].
+      destruct (enc_ascii a); [|apply (EXN XEncode); auto]. eapply CM'; [|exact H]. discriminate.
+    - destruct (s_lmtp st); [|apply (EXN XNotImpl); auto]. eapply HELLO; exact H.
+    - destruct (mail_command st addr size auth); [|apply (EXN XEncode); auto].
+      eapply CM'; [|exact H]. discriminate.
+    - destruct (encode st addr) as [ab|]; [|apply (EXN XEncode); auto].
+      destruct (command_method udigit uspace (bs "RCPT") KPlain _ _ st) as [st1 r1] eqn:Ecm.
+      assert (Hl1 : length (s_objs st1) <= length script).
+      { destruct r1; inversion H; subst; try assumption. destruct (s_lmtp st1); exact Hlen. }
+      destruct (CM _ _ _ _ _ _ Hkp Ecm Hl1) as (f' & I1 & Hres & Hlm & Hrc & Hn & Hr & Hk & Hc).
+      destruct Hr as [-> | ->]; inversion H; subst st' res; clear H.
+      + destruct (s_lmtp st1) eqn:E1.
+        * exists f'. split; [|split; [exact Hres|split; [cbn; congruence|]]].
+          -- apply cl_inv_add_rcpt; try assumption. lia.
+          -- unfold rc_step. split; [|intros [X|X]; discriminate]. right. right. exists addr. rewrite Hrc. auto.
+        * exists f'. split; [exact I1|]. split; [exact Hres|]. split; [congruence|]. unfold rc_step.
+          split; [auto|intros [X|X]; discriminate].
+      + exists f'. split; [exact I1|]. split; [exact Hres|]. split; [exact Hlm|]. unfold rc_step.
+        split; [auto|intros [X|X]; discriminate].
+    - unfold custom in H. eapply CM'; [|exact H]. discriminate.
+    - destruct (s_lmtp st); [eapply LD; exact H|]. eapply CM'; [|exact H]. discriminate.
+    - destruct (s_lmtp st); [eapply LD; exact H|]. eapply CM'; [|exact H]. discriminate.
+    - unfold custom in H.
+      destruct (command_method udigit uspace _ KPlain _ true st) as [st1 r1] eqn:Ecm.
+      assert (Hl1 : length (s_objs st1) <= length script).
+      { destruct r1; inversion H; subst; try assumption. destruct (s_lmtp st1); exact Hlen. }
+      destruct (CM _ _ _ _ _ _ Hkp Ecm Hl1) as (f' & I1 & Hres & Hlm & Hrc & Hn & Hr & Hk & Hc).
+      destruct Hr as [-> | ->]; inversion H; subst st' res; clear H.
+      + destruct (s_lmtp st1) eqn:E1.
+        * exists f'. split; [apply cl_inv_clear_rcpttos; exact I1|]. split; [exact Hres|].
+          split; [cbn; congruence|]. unfold rc_step. cbn. split; [auto|intros [X|X]; discriminate].
+        * exists f'. split; [exact I1|]. split; [exact Hres|]. split; [congruence|]. unfold rc_step.
+          split; [auto|intros [X|X]; discriminate].
+      + exists f'. split; [exact I1|]. split; [exact Hres|]. split; [exact Hlm|]. unfold rc_step.
+        split; [auto|intros [X|X]; discriminate].
+    - unfold custom in H. eapply CM'; [|exact H]. discriminate.
+    - unfold custom in H. eapply CM'; [|exact H]. discriminate.
   Qed.
 End Pairing.
